@@ -91,7 +91,7 @@ def worker(kp, job):
     if metas != pre + post:
         viol.append(('metacomments', f'get_metacomments() = {metas}, the !! lines are {pre + post}', {'text': text}))
     # ---- listings against each other, per filter
-    filters = [None] + [[c] for c in rng.sample(CATS, 5)] + [rng.sample(CATS, rng.randint(2, 5)) for _ in range(2)] + [['CORE'], ['NOTE_REST']]
+    filters = [None, []] + [[c] for c in rng.sample(CATS, 5)] + [rng.sample(CATS, rng.randint(2, 5)) for _ in range(2)] + [['CORE'], ['NOTE_REST']]
     for f in filters:
         fa = None if f is None else [TC[c] for c in f]
         key = rng.choice([None, 'COM', 'O', 'ONB'])
@@ -162,7 +162,7 @@ def run(chk):
     full = chk.tier == 'thorough' or bool(b.drift) or not b.proof_ok
     n = core.budget(chk, full, 70, 500)
     chk.rule = ('generated documents (1-4 spines, splits and joins, global comments before / inside / after the spines) x '
-                '10 category filters (none, singles, random sets) x comment keys; non-trivial = distinct (text, filter, key)')
+                '11 category filters (none, the empty list, singles, random sets) x comment keys; non-trivial = distinct (text, filter, key)')
     results = engine.pmap(worker, [(chk.seed, i) for i in range(n)])
     engine.settle(chk, results, model)
     chk.disagreements_checked = len(chk.broken)
